@@ -164,6 +164,18 @@ def top_atoms(p):
 _CANON_MEMO = {}
 
 
+def _manifestly_positive(p):
+    if not p.t or p.t.get((), 0) <= 0:
+        return False
+    for m, c in p.t.items():
+        if c <= 0:
+            return False
+        for a, e in m:
+            if e % 2 or a.kind != "sym":
+                return False
+    return True
+
+
 def canon(p, depth=0, quats=()):
     """Recursive normalisation: arguments of opaque atoms are normalised first (including the reduction modulo
     |q| = 1 when unit quaternions are declared); recip(N/D) becomes D * recip(N)."""
@@ -181,6 +193,14 @@ def canon(p, depth=0, quats=()):
         if r is not None:
             return r
         newargs = tuple(canon(x, depth + 1, quats) if isinstance(x, Poly) else x for x in a.key)
+        if a.kind == "sqrt":
+            # sqrt(N/D) = sqrt(N*D)/D when D is manifestly positive (even powers, positive coefficients, constant > 0)
+            q = _atom_relations(newargs[0])
+            num, den = split_rational(q)
+            if den.const_value() != 1 and _manifestly_positive(den):
+                r = rebuild("sqrt", (_atom_relations(num * den),)) * den.recip()
+                _CANON_MEMO[(a, qk)] = r
+                return r
         if a.kind == "recip":
             q = _atom_relations(newargs[0])
             num, den = split_rational(q)
